@@ -355,6 +355,7 @@ SEEDED = [
     ("r2-C19-2", "C19", "K4"),
     ("r2-C20-1", "C20", "K3"),
     # round 3
+    ("r3-C01-1", "C01", "PT1"), ("r3-C14-2", "C14", "PT1"),
     ("r3-C03-1", "C03", "SH3"), ("r3-C03-2", "C05", "INV"),
     ("r3-C04-1", "C04", "SH1"),
     ("r3-C05-1", "C05", "GO1"),
